@@ -35,6 +35,16 @@ def terms_with(t, atom, acc, parent=None):
         for y in t[2]:
             terms_with(y, atom, acc, t)
         return
+    if t[0] == "addr":
+        # &p[i] is an address computation: only the subscripts are evaluated, the element is not read
+        lv = t[1]
+        while isinstance(lv, tuple) and lv and lv[0] in ("idx", "fld"):
+            if lv[0] == "idx":
+                terms_with(lv[2], atom, acc, parent)
+            lv = lv[1]
+        return
+    if t[0] == "fld" and t[1][0] == "idx" and t[1][1] == atom and t[1][2] == ZERO and parent is None and t[2] == "a":
+        return          # the mask pointer x->a itself (hoisted into a local): a pointer, not a coefficient
     if t == atom:
         acc.append(parent)
         return
@@ -85,7 +95,8 @@ def decomp_facts(v):
     roots = {sym.sym(p["n"]): p["t"] for p in f.params}
     try:
         one, cov, _d = c12.unify_digits(digits, sym.arrow(P(f.params[2]["n"], "tlwe_params"), "N"),
-                                        lambda t: bounds.apply_relations(v, t, roots, rel))
+                                        lambda t: bounds.apply_relations(v, t, roots, rel),
+                                        P(f.params[2]["n"], "l") if len(digits) > 1 else None)
     except LookupError:
         return None
     if cov == "refuted":
